@@ -328,8 +328,9 @@ Definition maybe_range (info : index_info) (a b : sexpr) : option iexp :=
                           | OGt, OLtEq => Some (BExcl lv, BIncl rv)
                           | OGt, OLt => Some (BExcl lv, BExcl rv)
                           | OLtEq, OGtEq => Some (BIncl rv, BIncl lv)
-                          | OLtEq, OGt => Some (BExcl rv, BIncl lv)
-                          | OLt, OGtEq => Some (BIncl rv, BExcl lv)
+                          (* as written in maybe_range (the inclusivity of these two arms is swapped) *)
+                          | OLtEq, OGt => Some (BIncl rv, BExcl lv)
+                          | OLt, OGtEq => Some (BExcl rv, BIncl lv)
                           | OLt, OGt => Some (BExcl rv, BExcl lv)
                           | _, _ => None
                           end in
@@ -381,10 +382,10 @@ Fixpoint visit_node (info : index_info) (e : sexpr) (depth : N) : outcome (optio
         | Some range_expr => Ok (Some range_expr)
         | None =>
             match visit_node info a (depth + 1) with
-            | Ok left =>
+            | Ok lft =>
                 match visit_node info b (depth + 1) with
-                | Ok right =>
-                    Ok (match left, right with
+                | Ok rgt =>
+                    Ok (match lft, rgt with
                         | Some l, Some r => Some (ie_and l r)
                         | Some l, None => Some (ie_refine l b)
                         | None, Some r => Some (ie_refine r a)
@@ -399,10 +400,10 @@ Fixpoint visit_node (info : index_info) (e : sexpr) (depth : N) : outcome (optio
         end
     | XOr a b =>
         match visit_node info a (depth + 1) with
-        | Ok left =>
+        | Ok lft =>
             match visit_node info b (depth + 1) with
-            | Ok right =>
-                Ok (match left, right with
+            | Ok rgt =>
+                Ok (match lft, rgt with
                     | Some l, Some r => maybe_or l r
                     | _, _ => None
                     end)
@@ -557,12 +558,13 @@ Definition below (hi : bnd) (x : Z) : bool :=
   end.
 Definition lit_eqb_val (l : lit) (x : Z) : bool := match l with LVal v => (v =? x)%Z | LNull => false end.
 
-(* two-valued: does the value of the row satisfy the query (the answer an exact index gives) *)
+(* two-valued: is the SQL predicate the query stands for TRUE on a row with this value
+   (x = NULL, x IN (.., NULL) are never TRUE on a NULL x) *)
 Definition qmatch (en : env) (q : query) (v : option Z) : bool :=
   match q with
   | QRange lo hi => match v with Some x => above lo x && below hi x | None => false end
-  | QIsIn vs => match v with Some x => existsb (fun l => lit_eqb_val l x) vs | None => existsb lit_is_null vs end
-  | QEquals l => match v with Some x => lit_eqb_val l x | None => lit_is_null l end
+  | QIsIn vs => match v with Some x => existsb (fun l => lit_eqb_val l x) vs | None => false end
+  | QEquals l => match v with Some x => lit_eqb_val l x | None => false end
   | QIsNull => match v with None => true | Some _ => false end
   | QFn f arg => is_true (fn_sem en f v (lit_val arg))
   end.
@@ -705,6 +707,51 @@ Definition null_free (info : index_info) (tbl : list rowT) : bool :=
   forallb (fun r => forallb (fun cv => match info (fst cv), snd cv with Some _, None => false | _, _ => true end)
                             (combine (map N.of_nat (seq 0 (length (rvals r)))) (rvals r))) tbl.
 
+(* ================================================================ finding: maybe_range swaps the inclusivity *)
+Definition swapped_pair (opl opr : cmpop) : bool :=
+  match opl, opr with OLtEq, OGt | OLt, OGtEq => true | _, _ => false end.
+
+(* row r sits on one of the two bounds of a fused `x <= a AND x > b` / `x < a AND x >= b` with b < a *)
+Fixpoint range_swap_hit (info : index_info) (r : rowT) (e : sexpr) : bool :=
+  match e with
+  | XAnd a b =>
+      match maybe_range info a b with
+      | Some _ =>
+          match a, b with
+          | XCmp opl (TCol c) (TLit (LVal lv)), XCmp opr _ (TLit (LVal rv)) =>
+              swapped_pair opl opr && (rv <? lv)%Z &&
+              match val r c with Some x => (x =? lv)%Z || (x =? rv)%Z | None => false end
+          | _, _ => false
+          end
+      | None => range_swap_hit info r a || range_swap_hit info r b
+      end
+  | XNot x => range_swap_hit info r x
+  | XOr a b => range_swap_hit info r a || range_swap_hit info r b
+  | _ => false
+  end.
+
+Definition Known_C19_range_bounds_swapped (info : index_info) (tbl : list rowT) (p : sexpr) : bool :=
+  existsb (fun r => range_swap_hit info r p) tbl.
+
+(* ================================================================ the domain *)
+(* what the index plugins construct: BloomFilterQueryParser::new(name, true) *)
+Definition parser_ok (p : parser) : bool := match p with PBloom rc => rc | _ => true end.
+
+(* a Boolean column holds false = 0 / true = 1 *)
+Definition row_ok (info : index_info) (r : rowT) : bool :=
+  forallb (fun cv => match info (fst cv), snd cv with
+                     | Some ci, Some z => if ci_bool ci then (z =? 0)%Z || (z =? 1)%Z else true
+                     | _, _ => true
+                     end)
+          (combine (map N.of_nat (seq 0 (length (rvals r)))) (rvals r)).
+
+Fixpoint sdepth (e : sexpr) : N :=
+  match e with
+  | XNot x => 1 + sdepth x
+  | XAnd a b | XOr a b => 1 + N.max (sdepth a) (sdepth b)
+  | _ => 0
+  end.
+
 (* ================================================================ correspondence checkers *)
 Definition lit_eqb (a b : lit) : bool :=
   match a, b with LNull, LNull => true | LVal x, LVal y => (x =? y)%Z | _, _ => false end.
@@ -831,7 +878,8 @@ Definition chk_scan (i : list (N * (bool * list (N * parser))) * list (N * (N * 
   end.
 
 (* the class predicate as evaluated by the harness *)
-Definition chk_class (i : list (N * (bool * list (N * parser))) * list (N * N * list (option Z)) * sexpr) (o : bool) : bool :=
+Definition chk_class (i : list (N * (bool * list (N * parser))) * list (N * N * list (option Z)) * sexpr) (o : bool * bool) : bool :=
   let '(info_l, rows, p) := i in
   let tbl := map (fun r => mk_row (fst (fst r)) (snd (fst r)) (snd r)) rows in
-  Bool.eqb (Known_C19_not_over_nullable (info_of info_l) tbl p) o.
+  Bool.eqb (Known_C19_not_over_nullable (info_of info_l) tbl p) (fst o) &&
+  Bool.eqb (Known_C19_range_bounds_swapped (info_of info_l) tbl p) (snd o).
